@@ -611,6 +611,7 @@ func extractC03() *lean {
 	c03ApiFacts(l)
 	c03DpopFacts(l)
 	c03FsListFacts(l)
+	c03ExternalFacts(l)
 	return l
 }
 
